@@ -362,6 +362,9 @@ func XChaCha20Poly1305New(key []byte) (cipher.AEAD, error) {
 
 //verif:intercept crypto/rand.Read
 func RandRead(b []byte) (int, error) {
+	if len(b) == 0 {
+		return 0, nil
+	}
 	copy(b, verifrt.FreshBytes("rand", len(b)))
 	return len(b), nil
 }
